@@ -1235,6 +1235,11 @@ extern "C" {
             (void)dr_check(x->next);
             s->info.logical_edge_counts[dr_dag_edge_kind_create]++;
             s->info.logical_edge_counts[dr_dag_edge_kind_create_cont]++;
+            /* and the edge from the end of x's child task to the
+               successor of s; count it here, with the create edge,
+               so that it is kept when s is collapsed and the
+               subgraph containing s is not */
+            s->info.logical_edge_counts[dr_dag_edge_kind_end]++;
             s->info.n_child_create_tasks++;
             /* similar accumulation for x's child task */
             (void)dr_check(c);
@@ -1297,8 +1302,6 @@ extern "C" {
           case dr_dag_node_kind_section:
             if (x->next) {
               s->info.logical_edge_counts[dr_dag_edge_kind_wait_cont]++;
-              s->info.logical_edge_counts[dr_dag_edge_kind_end] 
-                += x->info.n_child_create_tasks;
             }
             break;
           default:
